@@ -32,7 +32,7 @@ def run_patch(patch, props=None, keep=False, verbose=False):
     try:
         repo = os.path.join(scratch, "repo")
         shutil.copytree(build.REPO, repo, ignore=shutil.ignore_patterns("target", ".git"))
-        p = subprocess.run(["patch", "-p1", "-s", "-i", os.path.abspath(patch)], cwd=repo, stdout=subprocess.PIPE, stderr=subprocess.STDOUT, text=True)
+        p = subprocess.run(["patch", "-p1", "-s", "-f", "-i", os.path.abspath(patch)], cwd=repo, stdout=subprocess.PIPE, stderr=subprocess.STDOUT, text=True)
         if p.returncode != 0:
             return {"patch": patch, "error": "patch does not apply: " + p.stdout[-400:], "expect": sorted(expect)}
         from .cli import PROPS
